@@ -299,4 +299,474 @@ theorem read_ixns (ns : List Atom) (name : String) (sp : Split) (xs : List Ixn) 
       (fun y hy => hrefs y (by simp [hy]))]
     simp [addMany]
 
+/-! ### groupby -/
+
+theorem runs_flatten {α κ : Type} [DecidableEq κ] (key : α → κ) (l : List α) :
+    (runs key l).flatMap (·.2) = l := by
+  induction l with
+  | nil => simp [runs]
+  | cons a l ih =>
+    simp only [runs]
+    cases h : runs key l with
+    | nil => simp [h] at ih; simp [← ih]
+    | cons kg rest =>
+      obtain ⟨k, g⟩ := kg
+      rw [h] at ih
+      simp only
+      split
+      · simp only [List.flatMap_cons, List.cons_append] at ih ⊢
+        rw [ih]
+      · simp only [List.flatMap_cons, List.cons_append, List.nil_append] at ih ⊢
+        rw [ih]
+
+theorem runs_key {α κ : Type} [DecidableEq κ] (key : α → κ) (l : List α) :
+    ∀ kg ∈ runs key l, ∀ x ∈ kg.2, key x = kg.1 := by
+  induction l with
+  | nil => simp [runs]
+  | cons a l ih =>
+    simp only [runs]
+    cases h : runs key l with
+    | nil => simp
+    | cons kg rest =>
+      obtain ⟨k, g⟩ := kg
+      rw [h] at ih
+      simp only
+      split
+      next heq =>
+        intro kg hkg x hx
+        simp only [List.mem_cons] at hkg
+        rcases hkg with rfl | hkg
+        · simp only [List.mem_cons] at hx
+          rcases hx with rfl | hx
+          · exact heq
+          · exact ih (k, g) (by simp) x hx
+        · exact ih kg (by simp [hkg]) x hx
+      next =>
+        intro kg hkg x hx
+        simp only [List.mem_cons] at hkg
+        rcases hkg with rfl | hkg
+        · simp only [List.mem_singleton] at hx
+          subst hx; rfl
+        · exact ih kg (by simpa using hkg) x hx
+
+/-! ### one group, one section -/
+
+def groupSorted (ns : List Atom) (name : String) (g : List Ixn) : List Ixn :=
+  g.mergeSort (fun a b => ixnKeyLe (ixnSortKey name (writtenAtoms ns name a))
+                                   (ixnSortKey name (writtenAtoms ns name b)))
+
+theorem groupSorted_perm (ns : List Atom) (name : String) (g : List Ixn) :
+    (groupSorted ns name g).Perm g := List.mergeSort_perm _ _
+
+theorem guard_of_gkey (x : Ixn) : x.guard = guardOfCond x.gkey.cond := by
+  unfold Ixn.guard Ixn.gkey guardOfCond
+  cases x.ifdef <;> cases x.ifndef <;> rfl
+
+theorem read_group (ns : List Atom) (name : String) (sp : Split) (k : GKey) (g : List Ixn) (st : RState)
+    (hsec : st.sec = .sub (headerName name)) (hnames : st.atomNames = List.range' 0 ns.length)
+    (hguard : st.guard = .none)
+    (hsp : lookupSplit (headerName name) = some (some sp))
+    (hk : ∀ x ∈ g, x.gkey = k)
+    (har : ∀ x ∈ g, arityOk name x = true)
+    (hrefs : ∀ x ∈ g, ∀ k ∈ x.atoms, hasKey ns k = true) :
+    readLines st (groupLines ns name k g) = .ok { st with
+      sections := addMany st.sections (headerName name) ((groupSorted ns name g).map (canonIxn ns name)) } := by
+  have hperm := groupSorted_perm ns name g
+  have har' : ∀ x ∈ groupSorted ns name g, arityOk name x = true := fun x hx => har x (hperm.mem_iff.mp hx)
+  have hrefs' : ∀ x ∈ groupSorted ns name g, ∀ k ∈ x.atoms, hasKey ns k = true :=
+    fun x hx => hrefs x (hperm.mem_iff.mp hx)
+  have hk' : ∀ x ∈ groupSorted ns name g, x.guard = guardOfCond k.cond := by
+    intro x hx; rw [guard_of_gkey, hk x (hperm.mem_iff.mp hx)]
+  have hmap : ∀ gd, gd = guardOfCond k.cond →
+      (groupSorted ns name g).map (fun x => (⟨(writtenAtoms ns name x).map (· - 1), x.params, gd⟩ : RIxn))
+        = (groupSorted ns name g).map (canonIxn ns name) := by
+    intro gd hgd
+    apply List.map_congr_left
+    intro x hx
+    simp [canonIxn, hk' x hx, hgd]
+  have hcmt : ∀ st' : RState, readLines st' (if k.group = "" then [] else [Line.comment k.group]) = .ok st' := by
+    intro st'; split <;> simp [readLines, step]
+  unfold groupLines
+  change readLines st (_ ++ _ ++ (groupSorted ns name g).map (ixnLine ns name) ++ _ ++ [Line.blank]) = _
+  cases hc : k.cond with
+  | none =>
+    simp only [List.nil_append, List.append_nil]
+    rw [List.append_assoc, readLines_ok_append (hcmt st), readLines_ok_append
+      (read_ixns ns name sp _ st hsec hnames hsp har' hrefs')]
+    simp only [readLines, step]
+    rw [hmap _ (by rw [hguard, hc]; rfl)]
+  | some tc =>
+    obtain ⟨t, c⟩ := tc
+    have hpre : readLines st [Line.pragma [if c then "#ifdef" else "#ifndef", t]]
+        = .ok { st with guard := guardOfCond (some (t, c)) } := by
+      cases c <;> simp [readLines, step, stepPragma, hguard, guardOfCond]
+    simp only [List.append_assoc]
+    rw [readLines_ok_append hpre, readLines_ok_append (hcmt _), readLines_ok_append
+      (read_ixns ns name sp _ _ (by simpa using hsec) (by simpa using hnames) hsp har' hrefs')]
+    have hg : guardOfCond (some (t, c)) ≠ Guard.none := by cases c <;> simp [guardOfCond]
+    simp only [List.singleton_append, readLines, step, stepPragma, hg, ↓reduceIte]
+    rw [hmap _ (by rw [hc])]
+    simp [hguard]
+
+def groupsOut (ns : List Atom) (name : String) (groups : List (GKey × List Ixn)) : List RIxn :=
+  groups.flatMap (fun kg => (groupSorted ns name kg.2).map (canonIxn ns name))
+
+theorem read_groups (ns : List Atom) (name : String) (sp : Split) (groups : List (GKey × List Ixn)) (st : RState)
+    (hsec : st.sec = .sub (headerName name)) (hnames : st.atomNames = List.range' 0 ns.length)
+    (hguard : st.guard = .none)
+    (hsp : lookupSplit (headerName name) = some (some sp))
+    (hk : ∀ kg ∈ groups, ∀ x ∈ kg.2, x.gkey = kg.1)
+    (har : ∀ kg ∈ groups, ∀ x ∈ kg.2, arityOk name x = true)
+    (hrefs : ∀ kg ∈ groups, ∀ x ∈ kg.2, ∀ k ∈ x.atoms, hasKey ns k = true) :
+    readLines st (groups.flatMap (fun kg => groupLines ns name kg.1 kg.2)) = .ok { st with
+      sections := addMany st.sections (headerName name) (groupsOut ns name groups) } := by
+  induction groups generalizing st with
+  | nil => simp [readLines, addMany, groupsOut]
+  | cons kg groups ih =>
+    simp only [List.flatMap_cons]
+    rw [readLines_ok_append (read_group ns name sp kg.1 kg.2 st hsec hnames hguard hsp
+      (hk kg (by simp)) (har kg (by simp)) (hrefs kg (by simp)))]
+    rw [ih _ (by simpa using hsec) (by simpa using hnames) (by simpa using hguard)
+      (fun kg' h => hk kg' (by simp [h])) (fun kg' h => har kg' (by simp [h]))
+      (fun kg' h => hrefs kg' (by simp [h]))]
+    simp [groupsOut, addMany_append]
+
+/-- the reader is between sections of a block whose `n` atoms are keyed 0..n-1 -/
+def Ready (st : RState) (n : Nat) : Prop :=
+  st.guard = .none ∧
+  ((st.sec = .atoms ∧ st.atoms.map (·.key) = List.range' 0 n) ∨
+   (∃ nm, st.sec = .sub nm) ∧ st.atomNames = List.range' 0 n)
+
+theorem enterSection_ready (st : RState) (n : Nat) (nm : String) (sp : Option Split)
+    (hr : Ready st n) (hsp : lookupSplit nm = some sp) :
+    enterSection st nm = .ok { st with sec := .sub nm, atomNames := List.range' 0 n } := by
+  have hmem := lookupSplit_mem hsp
+  obtain ⟨h1, h2⟩ := table_not_special _ hmem
+  simp only at h1 h2
+  unfold enterSection
+  simp only [h1, ↓reduceIte]
+  rcases hr.2 with ⟨hs, hkeys⟩ | ⟨⟨nm', hs⟩, hnames⟩
+  · simp [hs, h2, hsp, hkeys]
+  · simp [hs, h2, hsp, hnames]
+
+def sectionOut (ns : List Atom) (s : String × List Ixn) : List RIxn :=
+  groupsOut ns s.1 (sectionGroups s.2)
+
+theorem sectionGroups_flat (ixns : List Ixn) : ((sectionGroups ixns).flatMap (·.2)).Perm ixns := by
+  unfold sectionGroups
+  rw [runs_flatten]
+  exact List.mergeSort_perm _ _
+
+theorem mem_sectionGroups {ixns : List Ixn} {kg : GKey × List Ixn} (h : kg ∈ sectionGroups ixns)
+    {x : Ixn} (hx : x ∈ kg.2) : x ∈ ixns := by
+  apply (sectionGroups_flat ixns).mem_iff.mp
+  exact List.mem_flatMap.mpr ⟨kg, h, hx⟩
+
+theorem read_section (ns : List Atom) (s : String × List Ixn) (sp : Split) (st : RState)
+    (hr : Ready st ns.length)
+    (hsp : lookupSplit (headerName s.1) = some (some sp))
+    (har : ∀ x ∈ s.2, arityOk s.1 x = true)
+    (hrefs : ∀ x ∈ s.2, ∀ k ∈ x.atoms, hasKey ns k = true) :
+    readLines st (sectionLines ns s) = .ok { st with
+      sec := .sub (headerName s.1), atomNames := List.range' 0 ns.length,
+      sections := addMany st.sections (headerName s.1) (sectionOut ns s) } := by
+  unfold sectionLines
+  simp only [readLines, step]
+  rw [enterSection_ready st ns.length _ _ hr hsp]
+  simp only
+  have h := read_groups ns s.1 sp (sectionGroups s.2)
+    { st with sec := .sub (headerName s.1), atomNames := List.range' 0 ns.length } rfl rfl hr.1 hsp
+    (fun kg hkg => runs_key Ixn.gkey _ kg hkg)
+    (fun kg hkg x hx => har x (mem_sectionGroups hkg hx))
+    (fun kg hkg x hx => hrefs x (mem_sectionGroups hkg hx))
+  rw [h]
+  rfl
+
+def allOut (ns : List Atom) (secs : List (String × List Ixn)) (init : List (String × List RIxn)) :
+    List (String × List RIxn) :=
+  secs.foldl (fun acc s => addMany acc (headerName s.1) (sectionOut ns s)) init
+
+theorem read_sections (ns : List Atom) (secs : List (String × List Ixn)) (st : RState)
+    (hr : Ready st ns.length)
+    (hsp : ∀ s ∈ secs, ∃ sp, lookupSplit (headerName s.1) = some (some sp))
+    (har : ∀ s ∈ secs, ∀ x ∈ s.2, arityOk s.1 x = true)
+    (hrefs : ∀ s ∈ secs, ∀ x ∈ s.2, ∀ k ∈ x.atoms, hasKey ns k = true) :
+    ∃ st', readLines st (secs.flatMap (sectionLines ns)) = .ok st' ∧ st'.guard = .none ∧
+      st'.started = st.started ∧ st'.name = st.name ∧ st'.nrexcl = st.nrexcl ∧ st'.atoms = st.atoms ∧
+      st'.sections = allOut ns secs st.sections := by
+  induction secs generalizing st with
+  | nil => exact ⟨st, by simp [readLines], hr.1, rfl, rfl, rfl, rfl, rfl⟩
+  | cons s secs ih =>
+    obtain ⟨sp, hsp1⟩ := hsp s (by simp)
+    have h1 := read_section ns s sp st hr hsp1 (har s (by simp)) (hrefs s (by simp))
+    have hr' : Ready ({ st with
+        sec := .sub (headerName s.1), atomNames := List.range' 0 ns.length,
+        sections := addMany st.sections (headerName s.1) (sectionOut ns s) } : RState) ns.length :=
+      ⟨hr.1, Or.inr ⟨⟨_, rfl⟩, rfl⟩⟩
+    obtain ⟨st', h2, hg, hs, hn, hx, ha, hsecs⟩ := ih _ hr' (fun s' h => hsp s' (by simp [h]))
+      (fun s' h => har s' (by simp [h])) (fun s' h => hrefs s' (by simp [h]))
+    refine ⟨st', ?_, hg, hs, hn, hx, ha, ?_⟩
+    · simp only [List.flatMap_cons]
+      rw [readLines_ok_append h1, h2]
+    · rw [hsecs]; simp [allOut]
+
+/-! ### what ends up under a section name -/
+
+def ixnsOfSecs (secs : List (String × List RIxn)) (s : String) : List RIxn :=
+  match secs.find? (fun p => p.1 == s) with
+  | some p => p.2
+  | none => []
+
+theorem ixnsOf_addIxn (secs : List (String × List RIxn)) (nm : String) (x : RIxn) (s : String) :
+    ixnsOfSecs (addIxn secs nm x) s = if s = nm then ixnsOfSecs secs s ++ [x] else ixnsOfSecs secs s := by
+  induction secs with
+  | nil =>
+    by_cases h : s = nm
+    · simp [addIxn, ixnsOfSecs, h]
+    · have : ¬ nm = s := fun h' => h h'.symm
+      simp [addIxn, ixnsOfSecs, h, this]
+  | cons p secs ih =>
+    obtain ⟨n, l⟩ := p
+    simp only [addIxn]
+    by_cases hn : n = nm
+    · subst hn
+      by_cases h : s = n
+      · subst h; simp [ixnsOfSecs]
+      · have : ¬ n = s := fun h' => h h'.symm
+        simp [ixnsOfSecs, h, this]
+    · simp only [hn, ↓reduceIte]
+      by_cases h : n = s
+      · subst h
+        simp [ixnsOfSecs, hn]
+      · have hfind : ∀ rest : List (String × List RIxn),
+            ixnsOfSecs ((n, l) :: rest) s = ixnsOfSecs rest s := by
+          intro rest; simp [ixnsOfSecs, h]
+        rw [hfind, hfind, ih]
+
+theorem ixnsOf_addMany (secs : List (String × List RIxn)) (nm : String) (l : List RIxn) (s : String) :
+    ixnsOfSecs (addMany secs nm l) s = if s = nm then ixnsOfSecs secs s ++ l else ixnsOfSecs secs s := by
+  induction l generalizing secs with
+  | nil => simp [addMany]
+  | cons x l ih =>
+    have : addMany secs nm (x :: l) = addMany (addIxn secs nm x) nm l := rfl
+    rw [this, ih, ixnsOf_addIxn]
+    by_cases h : s = nm <;> simp [h]
+
+theorem ixnsOf_allOut (ns : List Atom) (secs : List (String × List Ixn)) (init : List (String × List RIxn))
+    (s : String) :
+    ixnsOfSecs (allOut ns secs init) s =
+      ixnsOfSecs init s ++ (secs.filter (fun p => headerName p.1 = s)).flatMap (sectionOut ns) := by
+  induction secs generalizing init with
+  | nil => simp [allOut]
+  | cons p secs ih =>
+    have : allOut ns (p :: secs) init = allOut ns secs (addMany init (headerName p.1) (sectionOut ns p)) := rfl
+    rw [this, ih, ixnsOf_addMany]
+    by_cases h : headerName p.1 = s
+    · simp [h]
+    · have h' : ¬ s = headerName p.1 := fun e => h e.symm
+      simp [h, h']
+
+theorem perm_flatMap_left {α β : Type} (l : List α) {f g : α → List β} (h : ∀ a ∈ l, (f a).Perm (g a)) :
+    (l.flatMap f).Perm (l.flatMap g) := by
+  induction l with
+  | nil => simp
+  | cons a l ih =>
+    simp only [List.flatMap_cons]
+    exact (h a (by simp)).append (ih (fun b hb => h b (by simp [hb])))
+
+theorem sectionOut_perm (ns : List Atom) (p : String × List Ixn) :
+    (sectionOut ns p).Perm (p.2.map (canonIxn ns p.1)) := by
+  unfold sectionOut groupsOut
+  have h1 : ((sectionGroups p.2).flatMap (fun kg => (groupSorted ns p.1 kg.2).map (canonIxn ns p.1))).Perm
+      ((sectionGroups p.2).flatMap (fun kg => kg.2.map (canonIxn ns p.1))) :=
+    perm_flatMap_left _ (fun kg _ => (groupSorted_perm ns p.1 kg.2).map _)
+  have h2 : (sectionGroups p.2).flatMap (fun kg => kg.2.map (canonIxn ns p.1))
+      = ((sectionGroups p.2).flatMap (·.2)).map (canonIxn ns p.1) := by
+    rw [List.map_flatMap]
+  rw [h2] at h1
+  exact h1.trans ((sectionGroups_flat p.2).map _)
+
+/-! ### assembling the round trip -/
+
+theorem table_minAtoms : ∀ p ∈ splitTable,
+    (match p.2 with
+      | some (Split.strict n) => minAtoms p.1 ≤ n
+      | some (Split.slice n) => minAtoms p.1 ≤ n
+      | _ => minAtoms p.1 ≤ 1) := by decide
+
+theorem minAtoms_impropers : minAtoms "impropers" = 1 := by decide
+
+theorem arityOk_minAtoms (name : String) (x : Ixn) (h : arityOk name x = true) :
+    minAtoms name ≤ x.atoms.length := by
+  unfold arityOk at h
+  cases hsp : lookupSplit (headerName name) with
+  | none => simp [hsp] at h
+  | some osp =>
+    have hmem := lookupSplit_mem hsp
+    have ht := table_minAtoms _ hmem
+    rw [hsp] at h
+    have hname : minAtoms name ≤ minAtoms (headerName name) ∨ name = "impropers" := by
+      unfold headerName
+      by_cases hi : name = "impropers"
+      · exact Or.inr hi
+      · simp [hi]
+    have key : minAtoms (headerName name) ≤ x.atoms.length ∧ 1 ≤ x.atoms.length := by
+      cases osp with
+      | none => simp at h
+      | some sp =>
+        cases sp with
+        | strict n =>
+          have : x.atoms.length = n := by simpa using h
+          simp only at ht
+          have h1 : 1 ≤ n := by
+            have := table_minAtoms _ hmem
+            have hpos : 1 ≤ minAtoms (headerName name) := by
+              unfold minAtoms; split <;> (try split) <;> (try split) <;> omega
+            simp only at this; omega
+          omega
+        | slice n =>
+          have : x.atoms.length = n := by simpa using h
+          simp only at ht
+          have hpos : 1 ≤ minAtoms (headerName name) := by
+            unfold minAtoms; split <;> (try split) <;> (try split) <;> omega
+          omega
+        | all =>
+          simp only [Bool.and_eq_true, decide_eq_true_eq] at h
+          simp only at ht
+          omega
+        | vsn =>
+          simp only [Bool.and_eq_true, decide_eq_true_eq] at h
+          simp only at ht
+          omega
+        | skip => simp at h
+    rcases hname with hle | hi
+    · omega
+    · rw [hi, minAtoms_impropers]; exact key.2
+
+theorem hasKey_perm {l₁ l₂ : List Atom} (h : l₁.Perm l₂) (k : Nat) : hasKey l₁ k = hasKey l₂ k := by
+  unfold hasKey
+  exact h.any_eq
+
+theorem flatMap_filter_nonempty {β : Type} (l : List (String × List Ixn)) (P : String × List Ixn → Bool)
+    (F : String × List Ixn → List β) (hF : ∀ p, p.2.isEmpty = true → F p = []) :
+    ((l.filter (fun s => !s.2.isEmpty)).filter P).flatMap F = (l.filter P).flatMap F := by
+  induction l with
+  | nil => rfl
+  | cons p l ih =>
+    by_cases he : p.2.isEmpty = true
+    · by_cases hp : P p = true
+      · simp [List.filter_cons, he, hp, ih, hF p he]
+      · simp [List.filter_cons, he, hp, ih]
+    · by_cases hp : P p = true
+      · simp [List.filter_cons, he, hp, ih]
+      · simp [List.filter_cons, he, hp, ih]
+
+theorem roundtrip (header : List String) (moltype : Tok) (m : Mol) (hwf : WF m) :
+    ∃ lines b, writeItp header moltype m = .ok lines ∧ readItp lines = .ok b ∧
+      b.name = moltype ∧ b.nrexcl = m.nrexcl ∧ b.atoms = canonAtoms m ∧
+      ∀ s, (b.ixnsOf s).Perm (canonIxns m s) := by
+  have hperm : (sortedNodes m).Perm m.atoms := List.mergeSort_perm _ _
+  have hsecs : (sortSections m.sections).Perm (m.sections.filter (fun s => !s.2.isEmpty)) :=
+    List.mergeSort_perm _ _
+  have hsub : ∀ s ∈ sortSections m.sections, s ∈ m.sections := by
+    intro s hs
+    exact (List.mem_filter.mp (hsecs.mem_iff.mp hs)).1
+  generalize hns : sortedNodes m = ns at hperm
+  have hne : ns.isEmpty = false := by
+    cases ns with
+    | nil => exact absurd (hperm.symm.eq_nil) hwf.atoms_ne
+    | cons a l => rfl
+  have hrefs : ∀ s ∈ sortSections m.sections, ∀ x ∈ s.2, ∀ k ∈ x.atoms, hasKey ns k = true := by
+    intro s hs x hx k hk
+    rw [hasKey_perm hperm]; exact hwf.refs s (hsub s hs) x hx k hk
+  have har : ∀ s ∈ sortSections m.sections, ∀ x ∈ s.2, arityOk s.1 x = true :=
+    fun s hs x hx => hwf.arity s (hsub s hs) x hx
+  have hwritable : (sortSections m.sections).all (fun s => s.2.all (ixnWritable ns s.1)) = true := by
+    rw [List.all_eq_true]; intro s hs
+    rw [List.all_eq_true]; intro x hx
+    unfold ixnWritable
+    have h1 := hwf.one_guard s (hsub s hs) x hx
+    have h2 : x.atoms.all (hasKey ns) = true := by
+      rw [List.all_eq_true]; exact hrefs s hs x hx
+    have h3 := arityOk_minAtoms s.1 x (har s hs x hx)
+    have h1' : (x.ifdef.isSome && x.ifndef.isSome) = false := by
+      cases hd : x.ifdef.isSome <;> cases hn : x.ifndef.isSome <;> simp_all
+    simp [h1', h2, h3]
+  have hsp : ∀ s ∈ sortSections m.sections, ∃ sp, lookupSplit (headerName s.1) = some (some sp) := by
+    intro s hs
+    have hmem := List.mem_filter.mp (hsecs.mem_iff.mp hs)
+    obtain ⟨x, hx⟩ : ∃ x, x ∈ s.2 := by
+      cases hl : s.2 with
+      | nil => simp [hl] at hmem
+      | cons x l => exact ⟨x, by simp⟩
+    have := har s hs x hx
+    unfold arityOk at this
+    cases hl : lookupSplit (headerName s.1) with
+    | none => simp [hl] at this
+    | some osp =>
+      cases osp with
+      | none => simp [hl] at this
+      | some sp => exact ⟨sp, rfl⟩
+  have hfields : ∀ a ∈ ns, a.fieldsOk = true := fun a ha => hwf.fields a (hperm.mem_iff.mp ha)
+  -- the written lines
+  refine ⟨_, ?_⟩
+  have hw : writeItp header moltype m = .ok (headerLines header ++
+      [Line.header "moleculetype", Line.data [moltype, natTok m.nrexcl] none, Line.blank,
+       Line.header "atoms"] ++ atomLinesFrom 0 ns ++ [Line.blank] ++
+      (sortSections m.sections).flatMap (sectionLines ns)) := by
+    unfold writeItp
+    simp only [hns, hne, hwritable]
+    rfl
+  -- reading them
+  have hskip : ∀ l ∈ headerLines header, isSkip l = true := by
+    intro l hl
+    unfold headerLines at hl
+    split at hl
+    · simp at hl
+    · simp only [List.mem_append, List.mem_map, List.mem_singleton] at hl
+      rcases hl with ⟨t, _, rfl⟩ | rfl <;> rfl
+  have hat := read_atoms ns 0 (stAtoms moltype m.nrexcl []) rfl (by simp [stAtoms]) hfields
+  have hready : Ready ({ stAtoms moltype m.nrexcl [] with
+      atoms := (stAtoms moltype m.nrexcl []).atoms ++ canonAtomsFrom 0 ns } : RState) ns.length := by
+    refine ⟨rfl, Or.inl ⟨rfl, ?_⟩⟩
+    simp [stAtoms, canonAtomsFrom_keys]
+  obtain ⟨st', hread, hg, hst, hnm, hnx, hatoms, hsections⟩ :=
+    read_sections ns (sortSections m.sections) _ hready hsp har hrefs
+  have hall : readLines RState.init (headerLines header ++
+      [Line.header "moleculetype", Line.data [moltype, natTok m.nrexcl] none, Line.blank,
+       Line.header "atoms"] ++ atomLinesFrom 0 ns ++ [Line.blank] ++
+      (sortSections m.sections).flatMap (sectionLines ns)) = .ok st' := by
+    simp only [List.append_assoc]
+    rw [readLines_ok_append (readLines_skip _ _ hskip)]
+    rw [← List.append_assoc, readLines_ok_append (read_preamble moltype m.nrexcl)]
+    rw [readLines_ok_append hat]
+    simp only [List.singleton_append, readLines, step]
+    exact hread
+  refine ⟨{ name := moltype, nrexcl := m.nrexcl, atoms := canonAtoms m, sections := st'.sections },
+    hw, ?_, rfl, rfl, rfl, ?_⟩
+  · unfold readItp
+    rw [hall]
+    unfold finish
+    simp only [hg, ne_eq, not_true_eq_false, ↓reduceIte, hst, hnm, hnx, hatoms]
+    simp [stAtoms, canonAtoms, hns]
+  · intro s
+    have h0 : (Block.ixnsOf { name := moltype, nrexcl := m.nrexcl, atoms := canonAtoms m,
+        sections := st'.sections } s) = ixnsOfSecs st'.sections s := rfl
+    rw [h0, hsections, ixnsOf_allOut]
+    have hinit : ixnsOfSecs ({ stAtoms moltype m.nrexcl [] with
+      atoms := (stAtoms moltype m.nrexcl []).atoms ++ canonAtomsFrom 0 ns } : RState).sections s = [] := rfl
+    rw [hinit, List.nil_append]
+    unfold canonIxns
+    rw [hns]
+    have h1 : (((sortSections m.sections).filter (fun p => headerName p.1 = s)).flatMap (sectionOut ns)).Perm
+        (((sortSections m.sections).filter (fun p => headerName p.1 = s)).flatMap
+          (fun p => p.2.map (canonIxn ns p.1))) :=
+      perm_flatMap_left _ (fun p _ => sectionOut_perm ns p)
+    have h2 := ((hsecs.filter (fun p => decide (headerName p.1 = s))).flatMap_right
+      (fun p => p.2.map (canonIxn ns p.1)))
+    have h3 := flatMap_filter_nonempty m.sections (fun p => decide (headerName p.1 = s))
+      (fun p => p.2.map (canonIxn ns p.1)) (by intro p hp; simp [List.isEmpty_iff.mp hp])
+    rw [h3] at h2
+    exact h1.trans h2
+
 end PolyplyVerif.Proofs.ItpIO
